@@ -173,6 +173,7 @@ func runC17(c *Ctx) {
 		tr := p.newTracer()
 		tr.throughFields, tr.throughParams, tr.throughCalls = false, false, false
 		var udpAddr, tcpAddr []ssa.Value
+		mixed := false
 		for _, a := range nu.AnonFuncs {
 			// only the closures of the "udp" case: they return transport.DnsConn / transport.NetConn and call DialContext with a constant network
 			eachInstr(a, func(in ssa.Instruction) {
@@ -183,8 +184,10 @@ func runC17(c *Ctx) {
 				net, _ := constString(ci.Call.Args[2])
 				addrRoots := tr.origins(ci.Call.Args[3])
 				// restrict to closures whose address is a captured local computed in NewUpstream itself (the udp case)
+				isCase := false
 				for _, r := range addrRoots {
 					if cl, ok := r.(*ssa.Call); ok && cl.Parent() == nu && callName(cl) == relUpstream+".joinPort" {
+						isCase = true
 						if net == "udp" {
 							udpAddr = append(udpAddr, r)
 						} else if net == "tcp" {
@@ -192,9 +195,13 @@ func runC17(c *Ctx) {
 						}
 					}
 				}
+				// the WHOLE origin set of the address is that one joinPort value (not "may be")
+				if isCase && len(addrRoots) != 1 {
+					mixed = true
+				}
 			})
 		}
-		good := len(udpAddr) == 1 && len(tcpAddr) >= 1
+		good := len(udpAddr) == 1 && len(tcpAddr) >= 1 && !mixed
 		for _, t := range tcpAddr {
 			if len(udpAddr) != 1 || t != udpAddr[0] {
 				good = false
@@ -203,14 +210,15 @@ func runC17(c *Ctx) {
 		c.check(good, "same-address", nu.Pos(), "UDP and fallback-TCP dial the same joinPort(host, port) value", "the fallback TCP connection is not dialled to the same address value as the UDP socket")
 	}
 
-	c.rule("R4", "both exchanges get the caller's query unchanged", 2)
+	c.rule("R4", "both exchanges get the caller's query unchanged, under the caller's context", 3)
 	q := f.Params[2]
 	c.check(udpCall.Call.Args[2] == ssa.Value(q), "udp-query", instrPos(udpCall), "UDP exchange sends q", "the UDP exchange does not send the caller's query")
 	c.check(tcpCall.Call.Args[2] == ssa.Value(q), "tcp-query", instrPos(tcpCall), "TCP exchange re-sends the same q", "the TCP retry does not send the same query")
+	c.check(isParamValue(p, udpCall.Call.Args[1], f.Params[1]) && isParamValue(p, tcpCall.Call.Args[1], f.Params[1]), "both-under-caller-ctx", instrPos(tcpCall), "both exchanges run under the caller's context",
+		"the UDP or the TCP exchange runs under "+exprStr(tcpCall.Call.Args[1])+" instead of the caller's context (e.g. one that was cancelled after the UDP attempt): every truncated reply fails instead of being retried over TCP")
 
 	c.rule("R5", "the bytes of a received reply (incl. the TC flag the fallback tests) are not modified on their way to the caller, except the id restoration", 3)
 	checkReplyBytesUntouched(c, p.funcsIn(relTransport, relUpstream, relDnsutils, relDoh))
-
 
 	c.rule("R6", "the TCP reply handed to the caller answers the fallback's own query: a non-pipelined connection re-enters the idle set only after its reply was read or when it was never used", 4)
 	{
@@ -218,6 +226,34 @@ func runC17(c *Ctx) {
 		lf := p.newLockFacts()
 		lf.analyseScope(tf)
 		checkIdleExclusive(c, tf, lf)
+	}
+
+	c.rule("R7", "a reply without TC is returned whole: the datagram reader's buffer is a constant of at least 4095 bytes and the reply handed on is exactly the bytes read", 1)
+	if rm := c.fn(relTransport, "", "readMsgUdp"); rm != nil {
+		c.see(rm)
+		good, why := false, "no Read into a pooled buffer found"
+		eachInstr(rm, func(in ssa.Instruction) {
+			ci, ok := in.(*ssa.Call)
+			if !ok || !ci.Call.IsInvoke() || ci.Call.Method.Name() != "Read" {
+				return
+			}
+			ld, ok := ci.Call.Args[0].(*ssa.UnOp)
+			if !ok {
+				return
+			}
+			g, ok := ld.X.(*ssa.Call)
+			if !ok || callName(g) != poolGet {
+				why = "the datagram is read into " + exprStr(ci.Call.Args[0])
+				return
+			}
+			n, isC := constInt(g.Call.Args[0])
+			if !isC || n < 4095 {
+				why = "the receive buffer is " + exprStr(g.Call.Args[0]) + " bytes (a constant >= 4095 is required): a larger reply without TC is cut by the read and handed on chopped, with no TCP retry"
+				return
+			}
+			good = true
+		})
+		c.check(good, "rx-buffer", rm.Pos(), "datagrams are read into a pooled buffer of >= 4095 bytes", why)
 	}
 
 }
